@@ -183,8 +183,16 @@ func judge(in []byte, rr readResult) (kind, msg, outcome string) {
 			return "fabricated-status", fmt.Sprintf("exchange %d: reader returned status %d but the header map has no :status", i, g.Response.Status), "accepted"
 		}
 		if cnt == 1 {
-			if n, err := strconv.Atoi(st); err == nil && n != g.Response.Status {
-				return "wrong-status", fmt.Sprintf("exchange %d: status %d, file says %q", i, g.Response.Status, st), "accepted"
+			// "exactly the bytes found": three ASCII digits are compared as a number; for any other
+			// spelling that a reader chooses to accept, the number it returns must at least be
+			// spelled that way (a reader turning "+20" or " 20" into 20 returns a status that is
+			// not in the file)
+			if n, ok := refbundle.StatusValue(st); ok {
+				if n != g.Response.Status {
+					return "wrong-status", fmt.Sprintf("exchange %d: status %d, file says %q", i, g.Response.Status, st), "accepted"
+				}
+			} else if strconv.Itoa(g.Response.Status) != st {
+				return "wrong-status", fmt.Sprintf("exchange %d: status %d, but the file spells :status as %q, which is not three ASCII digits", i, g.Response.Status, st), "accepted"
 			}
 		}
 		// headers: every returned field must be an occurrence in the file, and every file field must be returned
@@ -514,6 +522,51 @@ func smallAsms() []refbundle.Asm {
 	}
 	return []refbundle.Asm{mk("b2", false, false), mk("b1", false, false), mk("b2", true, true), mk("b1", true, true)}
 }
+
+// TestStatusSweep: every string of 0..3 octets over an alphabet of digits, signs, blanks and the
+// characters number parsers give a meaning to, plus longer look-alikes, as the :status of one
+// response of a small bundle of either version (numbers written as text: the format allows
+// exactly three ASCII digits).
+func TestStatusSweep(t *testing.T) {
+	alpha := []string{"0", "1", "2", "7", "9", "+", "-", " ", "\t", "x", "e", ".", "_", "\x00", "\n", ","}
+	var sts []string
+	sts = append(sts, "")
+	for _, a := range alpha {
+		sts = append(sts, a)
+		for _, b := range alpha {
+			sts = append(sts, a+b)
+			for _, c := range alpha {
+				sts = append(sts, a+b+c)
+			}
+		}
+	}
+	sts = append(sts, "0200", "2000", "+200", "-200", "200 ", " 200", "2 00", "20.0", "2e02", "0x20", "0b11", "0o77", "1_0", "1_00", "\u0662\u0660\u0660", "\uff12\uff10\uff10", "2\u06f00", "\u00b200",
+		"9223372036854775807", "9223372036854775808", "18446744073709551616", "00000000000000000000200", "1e3", "Inf", "NaN", "200\r", "\r\n200")
+	n := 0
+	for _, a := range smallAsms()[:2] {
+		for _, st := range sts {
+			b := a
+			b.Resps = append([]refbundle.AsmResp{}, a.Resps...)
+			b.Resps[1] = refbundle.AsmResp{Fields: []refbundle.HeaderField{{"x-a", "1"}, {":status", st}}, BodyLen: 30, BodyTag: 2}
+			n++
+			if !statusProp.One(t, Case{Asm: b, Truncate: -1, FlipOff: -1}) {
+				return
+			}
+		}
+	}
+	vh.Exhaustive("status", fmt.Sprintf("b1 and b2 x every :status string of 0..3 octets over %d symbols (digits, signs, blanks, x e . _ NUL LF comma) + 27 longer look-alikes: %d bundles", len(alpha), n))
+}
+
+var statusProp = vh.Define("C05", "status", func(c Case, r *vh.R) {
+	in, _ := materialise(&c)
+	rr := safeRead(in)
+	kind, msg, outcome := judge(in, rr)
+	r.Class("outcome:" + outcome)
+	r.NT()
+	if kind != "" {
+		r.Failf(kind, "%s\ninput (%d bytes) %x", msg, len(in), head(in, 160))
+	}
+})
 
 func TestExhaustiveTruncFlip(t *testing.T) {
 	asms := smallAsms()
